@@ -90,6 +90,8 @@ def run_case(run, drv, case_seed):
                 before = snapshot(box)
                 fence = [os.path.join(box, "no-such-dir")] if kind == "ro" else [box]
                 raised = None
+                glob = rng.choice([[], [], ["-q"], ["-v"]])
+                argv = glob + list(argv)
                 with effects.traced(fence=fence, record_reads=True, read_root=box) as tr:
                     try:
                         impl.cli(list(argv))
@@ -104,7 +106,8 @@ def run_case(run, drv, case_seed):
                     if tr.escapes or diff:
                         run.fail("impl-vs-spec", c, {"why": "inspecting command modified the filesystem",
                                                      "ops": [str(e) for e in tr.escapes[:3]], "changed": diff[:5]})
-                    drv.ask(f"ops {('recheck' if argv[0] in ('recheck', 'check') else 'magnet' if argv[0] in ('magnet', 'm') else 'info')} {hx(b'm')}",
+                    word = [a for a in argv if not a.startswith("-")][0]
+                    drv.ask(f"ops {('recheck' if word in ('recheck', 'check') else 'magnet' if word in ('magnet', 'm') else 'info')} {hx(b'm')}",
                             ("ro", c, mutating_tokens(tr.mutating(), box)))
                 else:
                     want = [os.path.relpath(expect, box)]
@@ -128,7 +131,8 @@ def run_case(run, drv, case_seed):
                                 f"{1 if probe_exists or outkind == 'existing' else 0}",
                                 ("create", c, [(t[0],) + tuple(os.path.join(box, p) for p in t[1:])
                                                for t in mutating_tokens(tr.mutating(), box)]))
-                run.case([argv[0] if argv and not argv[0].startswith("-") else "implicit",
+                run.case([" ".join(argv[:2]) if argv and argv[0] in ("-q", "-v") else
+                          argv[0] if argv and not argv[0].startswith("-") else "implicit",
                           m["version"], damaged, outkind if kind == "create" else None],
                          damaged or True, sample=c, classes=[kind, "raised:" + str(raised)])
             # rename: free target, then occupied target
